@@ -37,7 +37,7 @@ func init() {
 		[]string{"\"Inexact iff the result differs from the exact one\" beyond the remainder rule; over-reporting of Rounded"})
 	prop("C03", "Traps turn raised conditions into errors and never change or hide results",
 		[]string{"C03.R1", "C03.R2", "C03.R3", "C03.R4", "C03.R5", "C03.R6", "C03.R7", "C03.R8", "C04.R4"},
-		"Decides the error plumbing on all paths: GoError returns an error iff a system or trapped bit is set (path enumeration); every ErrDecimal wrapper performs exactly the same-named Context call behind the sticky-error guard and accumulates flags; every return of the single-rounding operations passes the trap filter with the flags it returns; errors are never compared with each other; composite functions test ed.Err() before every result-delivering return and destination write; wrapper-driven loops terminate under any trap set.",
+		"Decides the error plumbing on all paths: GoError returns an error iff a system or trapped bit is set (path enumeration); every ErrDecimal wrapper performs exactly the same-named Context call behind the sticky-error guard and accumulates flags; every return of the single-rounding operations passes the trap filter with the flags it returns; errors are never compared with each other; composite functions test ed.Err() before every result-delivering return and destination write; wrapper-driven loops terminate under any trap set; the parsing step does not trap by itself — its conditions reach the caller's single goError.",
 		[]string{"equality of composite-function results across trap sets when no error is returned (depends on which internal conditions arise)"})
 	prop("C04", "Operations are total: no panic and no hang on any well-formed input",
 		[]string{"C04.R1", "C04.R2", "C04.R3", "C04.R4", "C04.R5", "C04.R6", "C01.R3", "C07.R5", "C07.R6", "C12.R5"},
@@ -50,7 +50,7 @@ func init() {
 		"math/big methods are alias-safe when they can see the aliasing (same *big.Int or same backing array)", "hand summaries of (*BigInt).inner* / noescape; updateInner(src) copies src")
 	prop("C06", "Results depend only on operands and context; inputs are never modified",
 		[]string{"C06.R1", "C06.R2", "C06.R3", "C06.R4", "C06.R5", "C06.R6", "C06.R7", "C06.R8", "C06.R9", "C06.R10"},
-		"Decides for all inputs and histories: destinations of exported operations are write-only until assigned and completely assigned (Form, Negative, Exponent, Coeff) on every result-delivering return; the mod-set through every operand-role parameter and through the Context is empty; pointers into package-level tables and constants never reach a written position outside initialisation; every package-level variable is init-only.",
+		"Decides for all inputs and histories: destinations of exported operations are write-only until assigned and completely assigned (Form, Negative, Exponent, Coeff) on every result-delivering return; the mod-set through every operand-role parameter and through the Context is empty; pointers into package-level tables and constants never reach a written position outside initialisation; every package-level variable is init-only; a failed exponent check (setExponent returning a System* flag without storing) never leaves a new coefficient with the destination's previous exponent.",
 		[]string{"nothing numeric is needed for this property"},
 		"a Condition carrying a System* flag always becomes an error (C03.R1/R3), so such returns need not deliver a complete value", "math/big mod/ref table", "hand summaries of the unsafe helpers")
 	prop("C07", "Every finite result fits the context it was computed in",
@@ -59,11 +59,11 @@ func init() {
 		[]string{"that Rounder.Round removes exactly NumDigits−Precision digits (digit arithmetic)"})
 	prop("C08", "Special values follow the decimal arithmetic rules in every operation",
 		[]string{"C08.R1", "C08.R2", "C08.R3", "C08.R4", "C08.R5", "C08.R6", "C08.R7", "C08.R8", "C08.R9"},
-		"Decides: every exported Context operation tests all its operands for NaN first and returns setAsNaN with the same operands; setAsNaN's selection order and signaling behaviour (path enumeration); NaN results and invalid-class flags are paired both ways, DivisionByZero with infinity; copied unsigned specials/zeros get their sign from the operands; the exact-zero sum sign is c.Rounding == RoundFloor.",
+		"Decides: every exported Context operation tests all its operands for NaN first and returns setAsNaN with the same operands; setAsNaN's selection order and signaling behaviour (path enumeration); NaN results and invalid-class flags are paired both ways, DivisionByZero with infinity; copied unsigned specials/zeros get their sign from the operands; the exact-zero sum sign is c.Rounding == RoundFloor; a NaN the library generates never takes a sign afterwards.",
 		[]string{"the complete result table for finite × special operand combinations beyond these pairings"})
 	prop("C09", "Quantize and RoundToIntegral produce the requested exponent, correctly rounded",
 		[]string{"C09.R1", "C09.R2", "C09.R3", "C09.R4", "C09.R5", "C09.R6", "C09.R7", "C09.R8", "C20.R2", "C01.R5", "C04.R6"},
-		"Decides: every digit-dropping path in quantize consults the rounding mode; the last exponent store before every non-system return of quantize is the requested exponent; Quantize yields NaN under each of its five guards; RoundToIntegralValue masks exactly Inexact|Rounded and Exact nothing, both quantize to exponent 0 behind the specials prologue; Ceil/Floor adjust by one only under the strict sign test of the fraction.",
+		"Decides: every digit-dropping path in quantize consults the rounding mode; the last exponent store before every non-system return of quantize is the requested exponent; Quantize yields NaN under each of its five guards; RoundToIntegralValue masks exactly Inexact|Rounded and Exact nothing, both quantize to exponent 0 behind the specials prologue; Ceil/Floor adjust by one only under the strict sign test of the fraction; quantize refuses an exponent gap only for non-zero values.",
 		[]string{"correctness of the rescaled coefficient and the 0.9→1.0 fix-up arithmetic"})
 	prop("C10", "Integer division and remainder satisfy the division identity",
 		[]string{"C10.R1", "C10.R2", "C01.R3", "C04.R3", "C10.R3", "C08.R9"},
@@ -71,7 +71,7 @@ func init() {
 		[]string{"the identity x = q·y + r itself (math/big arithmetic and alignment arithmetic)"})
 	prop("C11", "Sqrt is correctly rounded; Cbrt is within one unit and exact on perfect cubes",
 		[]string{"C11.R1", "C11.R2", "C11.R3", "C11.R4", "C04.R4", "C03.R5", "C12.R5"},
-		"Decides only structure: Sqrt's final rounding runs with Precision = c.Precision and Rounding = half-even on a working context of larger precision; Cbrt returns zero flags only under operand == d³; both take specials from rootSpecials; their loops are bounded and their wrapper errors surfaced.",
+		"Decides only structure: Sqrt's final rounding runs with Precision = c.Precision and Rounding = half-even on a working context of larger precision; Cbrt returns zero flags only under operand == d³; both take specials from rootSpecials; their loops are bounded and their wrapper errors surfaced; Sqrt corrects its last digit and derives Inexact from an exact comparison of the candidate's square with the operand; Cbrt works on the operand scaled by its digit count, locates the root among Precision-digit candidates by exact cubes, and every exit applies the scale.",
 		[]string{"correct rounding of Sqrt and the 1-ulp bound of Cbrt: real-analysis error bounds of Newton iterations with tuned guard digits — no sound static argument in reach"})
 	prop("C12", "Exp, Ln, Log10 and Pow are accurate to one unit in the last place",
 		[]string{"C12.R1", "C12.R2", "C12.R3", "C12.R4", "C12.R5", "C06.R9", "C04.R4", "C03.R5", "C06.R7"},
@@ -79,11 +79,11 @@ func init() {
 		[]string{"one-ulp accuracy: series truncation and guard-digit sufficiency are statements about real numbers"})
 	prop("C13", "Text and binary encodings round-trip every Decimal exactly",
 		[]string{"C13.R1", "C13.R2", "C13.R3", "C13.R4", "C13.R5", "C06.R2"},
-		"Decides writer/reader table agreement: special-name, sign and exponent-marker tokens written by the formatter are the ones the parser accepts and map back to the same Form; Compose and Decompose agree on the form byte and Compose assigns the whole value; the float path uses shortest 64-bit formatting and the package parser; all text producers share one formatter.",
+		"Decides writer/reader table agreement: special-name, sign and exponent-marker tokens written by the formatter are the ones the parser accepts and map back to the same Form; Compose and Decompose agree on the form byte and Compose assigns the whole value; the float path uses shortest 64-bit formatting and the package parser; all text producers share one formatter; setExponent applies the package limits to the sum of the exponent terms (so the scientific form of a long coefficient parses back) and stores only exponents within them.",
 		[]string{"digit/point placement round-trip for every exponent (string arithmetic in fmtE/fmtF vs the parser)"})
 	prop("C14", "String is the GDA scientific string; parsing accepts exactly its grammar",
 		[]string{"C04.R5", "C14.R2", "C14.R3", "C14.R4", "C14.R5", "C14.R6", "C14.R7", "C14.R8", "C14.R9", "C14.R10", "C14.R11", "C13.R1", "C13.R5", "C07.R5"},
-		"Decides: the digit string is sign-free when it reaches BigInt.SetString; special names are alternatives; payload and exponent are validated by strconv with error edges returning errors (base 10, 32 bit); every text entry point goes through the one parser; parse errors return no partial value; plain notation is chosen exactly under exponent ≤ 0 ∧ adjusted ≥ −6 with the documented zero exception; fmtE prints the adjusted exponent.",
+		"Decides: the digit string is sign-free when it reaches BigInt.SetString; special names are alternatives; payload and exponent are validated by strconv with error edges returning errors (base 10, 32 bit); every text entry point goes through the one parser; parse errors return no partial value; plain notation is chosen exactly under exponent ≤ 0 ∧ adjusted ≥ −6 with the documented zero exception; fmtE prints the adjusted exponent; on the error edge of the parsing step the receiver is overwritten with the shared NaN.",
 		[]string{"full language equality with the GDA grammar (acceptance of digit strings is delegated to strconv/math/big)", "Format's flag/width layout beyond the padding width and the sign-before-zeros order"})
 	prop("C15", "Cmp is the exact numeric order and CmpTotal is the documented total order",
 		[]string{"C15.R1", "C15.R2", "C15.R3", "C15.R4", "C08.R1", "C05.R4"},
@@ -91,7 +91,7 @@ func init() {
 		[]string{"order axioms over triples; correctness of the digit-count shortcut (numeric)"})
 	prop("C16", "BigInt behaves exactly like math/big.Int",
 		[]string{"C16.R1", "C16.R2", "C16.R3", "C16.R4", "C16.R5", "C16.R6", "C18.R5", "C05.R1", "C05.R2", "C06.R3"},
-		"Decides wrapper discipline for all 60+ methods: same-named math/big call on the receiver's view with parameters' views in order; every written view is written back with updateInner on every successful path and operands never are; zero is never negative on any fast path; fast paths read operands before writing (RAW) and never write them.",
+		"Decides wrapper discipline for all 60+ methods: same-named math/big call on the receiver's view with parameters' views in order; every written view is written back with updateInner on every successful path and operands never are; zero is never negative on any fast path; fast paths read operands before writing (RAW) and never write them; the views written by the math/big routines that can leave a sign on a zero magnitude are normalised before the write-back.",
 		[]string{"value equality of the uint64 fast-path arithmetic with math/big; text and bit-length results"})
 	prop("C17", "Integer and float conversions and Modf are exact",
 		[]string{"C17.R1", "C17.R2", "C17.R3", "C13.R3", "C05.R1", "C06.R2"},
